@@ -179,12 +179,14 @@ def _run_world(world, mode=None, extra=None, extensions=None, directory=None, ke
     return obs
 
 
-def run_cli(world, mode, extra=(), cpus=1, directory=None, hashseed='0', timeout=300):
+def run_cli(world, mode, extra=(), cpus=1, directory=None, hashseed='0', timeout=300, keep_outputs=False):
     """The real entry point in a subprocess (real pathos pool).  Returns (returncode, stderr, files)."""
     d = directory or core.scratch_dir()
     rp, qp = write_world(d, world)
     op = os.path.join(d, 'c.xmap')
     for k in ('', '_1', '_2'):
+        if keep_outputs:        # a repetition of the same command: the files of the earlier run are still in place
+            break
         try:
             os.remove(os.path.join(d, 'c%s.xmap' % k))
         except OSError:
